@@ -353,6 +353,11 @@ void RotatingFileSink::send(const LogMessage &lmsg)
     d->init();
     d->rotateIfNeeded(lmsg);
     FileSink::send(lmsg);
+
+    // Write the record out now: a record left in the stream buffer would reach the file (and set
+    // its modification time, from which init() derives the log date after a restart) only at
+    // the next message or at close, possibly on a later calendar day
+    flush();
 }
 
 } // namespace QtLogger
